@@ -91,50 +91,51 @@ OORS = ["Remove", "SwapRemove", "Insert", "At", "AtMut", "Get", "GetMut", "Pop",
 
 
 def define():
-    # ---------------- quick core: class S, symbolic shape, Heap + Stack
-    ins("Raw", False, "none", "heap", "heap", "W8D")
-    ins("Raw", False, "none", "stack", "heap", "B3D")
-    ins("Wrapper", False, "none", "heap", "heap", "B3D")
-    ins("Wrapper", True, "none", "stack", "heap", "W8D")
+    # ---------------- quick core: class S, symbolic shape, Heap + Stack. 3-byte drop-glue element in the
+    # every-change tier (cheapest type with identity registry); the 8-byte twins rotate by seed (rot3).
+    for elem, tier in (("B3D", "quick"), ("W8D", "rot3")):
+        ins("Raw", False, "none", "heap", "heap", elem, tier=tier)
+        ins("Raw", False, "none", "stack", "heap", elem, tier=tier if elem == "W8D" else "rot3")
+        ins("Wrapper", False, "none", "heap", "heap", elem, tier=tier)
+        ins("Wrapper", True, "none", "stack", "heap", elem, tier=tier)
+        ins("YRemove", False, "none", "heap", "stack", elem, tier=tier)
+        ins("YSwapRemove", True, "none", "stack", "heap", elem, tier=tier)
+        ins("YPop", False, "none", "heap", "heap", elem, tier="rot3")
+        ins("YDrain", False, "none", "heap", "heap", elem, tier=tier)
+        lazy(False, "clone", "heap", "heap", elem, tier=tier)
+        lazy(True, "clone", "stack", "heap", elem, tier="rot3")
+        instyped(False, "none", "heap", elem, tier=tier)
+        instyped(True, "none", "stack", elem, tier=tier)
+        rem("Pop", "Drop", "none", "heap", "heap", elem, tier=tier)
+        rem("Pop", "PushY", "none", "stack", "heap", elem, tier="rot3")
+        rem("Remove", "Drop", "none", "heap", "heap", elem, tier=tier)
+        rem("Remove", "Downcast", "none", "stack", "heap", elem, tier=tier)
+        rem("Remove", "InsertY", "none", "heap", "stack", elem, tier=tier)
+        rem("SwapRemove", "Drop", "none", "stack", "heap", elem, tier=tier)
+        rem("SwapRemove", "MutDowncast", "none", "heap", "heap", elem, tier="rot3")
+        rem("SwapRemove", "PushY", "none", "heap", "heap", elem, tier=tier)
+        rem("Pop", "BytesMut", "none", "heap", "heap", elem, tier="rot3")
+        for op in ("Pop", "Remove", "SwapRemove"):
+            remtyped(op, "none", "heap" if op != "Remove" else "stack", elem, tier=tier)
+        clear(False, "none", "heap", elem, tier=tier)
+        clear(True, "none", "stack", elem, tier=tier)
+        for w in OORS:
+            oor(w, "none", "heap" if OORS.index(w) % 2 == 0 else "stack", elem, tier=tier if elem == "B3D" else "rot8")
+        ins("Raw", False, "none", "reloc", "reloc", elem, tier=tier)
+        ins("Raw", False, "none", "stackn", "heap", elem, tier=tier)
+        rem("Remove", "PushY", "none", "reloc", "reloc", elem, tier=tier)
+        # heap growth from smaller capacities (len == cap), concrete capacity, symbolic index
+        for c in (0, 1, 2):
+            ins("Raw", False, "none", "heap", "heap", elem, L=3, cap=c, ln=c, idx="s%d" % c, tier=tier if c != 1 else "rot3")
     ins("Typeless", False, "none", "heap", "heap", "H2")
-    ins("Sizeless", True, "none", "stack", "heap", "W8")
+    ins("Sizeless", True, "none", "stack", "heap", "W8", tier="rot3")
     ins("Sizeless", False, "none", "stack", "heap", "B1")
-    ins("YRemove", False, "none", "heap", "stack", "W8D")
-    ins("YSwapRemove", True, "none", "stack", "heap", "B3D")
-    ins("YPop", False, "none", "heap", "heap", "W8D")
-    ins("YDrain", False, "none", "heap", "heap", "B3D")
-    lazy(False, "clone", "heap", "heap", "W8D")
-    lazy(True, "clone", "stack", "heap", "B3D")
-    instyped(False, "none", "heap", "W8D")
-    instyped(True, "none", "stack", "B3D")
-    rem("Pop", "Drop", "none", "heap", "heap", "W8D")
-    rem("Pop", "PushY", "none", "stack", "heap", "B3D")
-    rem("Remove", "Drop", "none", "heap", "heap", "B3D")
-    rem("Remove", "Downcast", "none", "stack", "heap", "W8D")
-    rem("Remove", "InsertY", "none", "heap", "stack", "W8D")
-    rem("SwapRemove", "Drop", "none", "stack", "heap", "W8D")
-    rem("SwapRemove", "MutDowncast", "none", "heap", "heap", "B3D")
-    rem("SwapRemove", "PushY", "none", "heap", "heap", "W8D")
     rem("Remove", "DowncastRef", "none", "heap", "heap", "H2")
-    rem("Pop", "BytesMut", "none", "heap", "heap", "W8D")
-    for op in ("Pop", "Remove", "SwapRemove"):
-        remtyped(op, "none", "heap" if op != "Remove" else "stack", "W8D" if op != "SwapRemove" else "B3D")
-    clear(False, "none", "heap", "W8D")
-    clear(True, "none", "stack", "B3D")
     clear(False, "none", "heap", "Z0D")
-    for w in OORS:
-        oor(w, "none", "heap" if OORS.index(w) % 2 == 0 else "stack", "W8D")
     # zero-sized
     ins("Wrapper", False, "none", "heap", "heap", "Z0D")
     ins("Raw", True, "none", "heap", "heap", "Z0")
     rem("Remove", "Drop", "none", "heap", "heap", "Z0D")
-    # secondary backends (quick: one each)
-    ins("Raw", False, "none", "reloc", "reloc", "W8D")
-    ins("Raw", False, "none", "stackn", "heap", "W8D")
-    rem("Remove", "PushY", "none", "reloc", "reloc", "B3D")
-    # heap growth from smaller capacities (len == cap), concrete capacity, symbolic index
-    for c in (0, 1, 2):
-        ins("Raw", False, "none", "heap", "heap", "W8D", L=3, cap=c, ln=c, idx="s%d" % c, tier="quick" if c != 1 else "rot2")
     # class M / L: concrete shapes in rotation (quick), all in thorough
     for elem in ("T12", "Q16", "D24D", "A32", "A64", "L160D"):
         for (ln, idx) in ((3, 0), (3, 1), (2, 2), (3, 3)):
